@@ -198,6 +198,14 @@ class MuEngine(Engine):
         if wcn == 'cv' and rec.new_spin == 1 and rec.spin == 0:
             st.ghost[('flag', 'cv_spin_taken', rec.instance)] = 1        # C13.R4: this thread has been inside the cv's spinlock
         if wcn == 'mu' and rec.pairs:
+            LW = self.K['MU_LONG_WAIT']
+            # C02.R7 / C14.R4: the thread that raises MU_LONG_WAIT (when it re-queues) is the one that must take it down again when it acquires
+            rec.long_waiter = st.ghost.get(('flag', 'long_waiter', rec.instance)) == 1
+            if rec.new_spin == 1 and rec.spin == 0 and any((n & LW) and not (e & LW) for e, n in rec.pairs):
+                st.ghost[('flag', 'long_waiter', rec.instance)] = 1
+            elif rec.new_hold in ('W', 'R') and rec.hold == 'none':
+                st.ghost.pop(('flag', 'long_waiter', rec.instance), None)
+        if wcn == 'mu' and rec.pairs:
             WT = self.K['MU_WAITING']
             # C13.R7: a thread that turns MU_WAITING on owes an enqueue before it drops the spinlock
             if rec.new_spin == 1 and rec.spin == 0 and any((n & WT) and not (e & WT) for e, n in rec.pairs):
